@@ -340,6 +340,61 @@ static bool sc_has_value(long it) {
     return ok;
 }
 
+// 15: a task running in the pool calls pool.stop() while the owner destroys the pool (thread_pool::stop, two stoppers)
+static bool sc_pool_two_stoppers(long it) {
+    auto *pool = new thread_pool(2);
+    std::atomic<int> started{0};
+    pool->run_detached([pool, &started] { started.store(1, std::memory_order_relaxed); pool->stop(); });
+    if (it & 1) { while (!started.load(std::memory_order_relaxed)) spin(); }
+    delete pool;
+    return true;
+}
+
+// 16: discard() of a pending future that another thread resolves afterwards; the resolver is held back by a relaxed
+// flag only, so the awaiter slot of the future is the only synchronisation (future.h discard helper awaiter)
+static bool sc_discard(long it) {
+    std::thread thr;
+    std::atomic<int> go{0};
+    std::atomic<int> resolved{0};
+    discard([&] {
+        return future<Payload>([&](promise<Payload> p) {
+            thr = std::thread([&go, &resolved, it, p = std::move(p)]() mutable {
+                while (!go.load(std::memory_order_relaxed)) spin();
+                p(it);
+                resolved.store(1, std::memory_order_relaxed);
+            });
+        });
+    });
+    go.store(1, std::memory_order_relaxed);
+    thr.join();
+    return resolved.load() == 1;
+}
+
+// 17: publisher with a LIMITED queue and an item that owns heap memory: a reader lagging at the limit copies the oldest
+// item while publish() trims the queue (publisher.h get_value / push_lk)
+struct HeapItem {
+    std::vector<long> v;
+    HeapItem() = default;
+    explicit HeapItem(long x) : v(48, x) {}
+    bool good() const { for (auto y : v) if (y != v[0]) return false; return !v.empty(); }
+};
+static bool sc_limited_publisher(long it) {
+    publisher<HeapItem> pub(2, 1);
+    bool ok = true;
+    std::atomic<bool> stop{false};
+    std::thread reader([&] {
+        while (!stop.load(std::memory_order_relaxed)) {
+            subscriber<HeapItem> s(pub);
+            for (int k = 0; k < 40 && s.next(); k++) { if (!s.value().good()) ok = false; }
+        }
+    });
+    for (long k = 1; k <= 300; k++) { pub.publish(HeapItem(it * 1000 + k)); if ((k & 15) == 0) spin(); }
+    stop.store(true, std::memory_order_relaxed);
+    pub.close();
+    reader.join();
+    return ok;
+}
+
 int main(int argc, char **argv) {
     if (argc < 2) return 2;
     cocls::verif::get_hooks().log = [](const char *id, long a, long) {
@@ -349,7 +404,7 @@ int main(int argc, char **argv) {
         std::printf("CASE %s\n", cs.name.c_str());
         std::fflush(stdout);
         for (auto &op : cs.ops) {
-            if (op.size() != 2 || op[0] < 1 || op[0] > 14 || op[1] < 0 || op[1] > 100000) { vh::print_obs({-1}); continue; }
+            if (op.size() != 2 || op[0] < 1 || op[0] > 17 || op[1] < 0 || op[1] > 100000) { vh::print_obs({-1}); continue; }
             bool ok = true;
             for (long it = 1; it <= op[1] && ok; it++) {
                 switch (op[0]) {
@@ -367,6 +422,9 @@ int main(int argc, char **argv) {
                     case 12: ok = sc_promise_race(it); break;
                     case 13: ok = sc_two_publishers(it); break;
                     case 14: ok = sc_has_value(it); break;
+                    case 15: ok = sc_pool_two_stoppers(it); break;
+                    case 16: ok = sc_discard(it); break;
+                    case 17: ok = sc_limited_publisher(it); break;
                 }
             }
             vh::print_obs({ok ? 0L : 1L});
